@@ -190,9 +190,8 @@ Proof.
     assert (Hinc4 : incl (concat us) (ids (a_alloc a1))).
     { intros x Hx. apply I4. eapply Permutation_in; [apply concat_perm; exact Hperm2|exact Hx]. }
     destruct (phaseA4_spec c n A0 _ _ _ _ H I1 I2 Hnd4 Hinc4) as [J1 [J2 J3]].
-    splits; auto. intros Hk Hdn Hr. apply J3; auto.
-    + exact (I6 _ Hdn Hdiv_socks).
-    + intros l Hl. apply (Permutation_in _ Hperm2) in Hl. destruct (I5 l Hl) as [[]|Hx]. apply Hdiv_socks. exact Hx.
+    splits; auto. intros Hk Hdn Hr. apply J3; [exact Hk|exact (I6 _ Hdn Hdiv_socks)| |exact Hr].
+    intros l Hl. apply (Permutation_in _ Hperm2) in Hl. destruct (I5 l Hl) as [[]|Hx]. apply Hdiv_socks. exact Hx.
   - inversion H; subst. splits; auto. intros _ _ Hr. discriminate.
 Qed.
 
@@ -292,7 +291,6 @@ Proof.
   - constructor.
   - apply NoDup_map_filter. exact HT.
   - intros x [].
-  - intros x [].
   - intros x Hx. apply in_map_iff in Hx. destruct Hx as [y [E Hy]]. apply filter_In in Hy.
     destruct Hy as [_ Hy]. apply memZ_In in Hy. congruence.
 Qed.
@@ -320,41 +318,45 @@ Qed.
 Lemma take_cpus_acc_spec c avail allocated n bind a :
   NoDup (map cid (c_topo c)) ->
   take_cpus_acc c avail allocated n bind = Some a ->
-  NoDup (a_res a) /\ incl (a_res a) avail
+  NoDup (a_res a) /\ incl (a_res a) (map cid (filter (fun x => memZ (cid x) avail) (c_topo c)))
   /\ lenZ (a_res a) + a_need a = n /\ a_need a < 1
-  /\ (((bind =? 1) = true -> (cpc (c_topo c) | n)) -> n < 1 \/ a_need a = 0).
+  /\ (((bind =? 1) = true -> (cpc (c_topo c) | n)) -> lenZ (a_res a) = Z.max 0 n).
 Proof.
   intros HT H. unfold take_cpus_acc in H.
   destruct (new_acc_inv c avail allocated n HT) as [N1 [N2 [N3 [N4 [N5 [N6 N7]]]]]].
   set (a0 := new_acc c avail allocated n) in *.
+  set (A0 := map cid (filter (fun x => memZ (cid x) avail) (c_topo c))) in *.
+  assert (N4' : incl (a_res a0) A0) by (intros x []).
+  assert (N5' : incl (ids (a_alloc a0)) A0) by (rewrite N7; apply incl_refl).
   assert (Hn0 : a_need a0 = n) by reflexivity.
   destruct (satisfied a0) eqn:Es.
-  { inversion H; subst a. apply satisfied_spec in Es. splits; auto. intros _. left. lia. }
+  { inversion H; subst a. apply satisfied_spec in Es. splits; auto; try lia;
+      try (intros _; change (a_res a0) with (@nil Z); cbn; lia). }
   pose proof (not_satisfied _ Es) as Hn.
   destruct (lenZ (a_alloc a0) <? a_need a0) eqn:Ef; [discriminate|]. apply Z.ltb_ge in Ef.
-  assert (Hinv : acc_inv n avail a0) by (unfold acc_inv; splits; auto).
+  assert (Hinv : acc_inv n A0 a0) by (unfold acc_inv; splits; auto).
   assert (Hne : c_topo c <> []).
   { intros E. unfold a0, new_acc in Ef. cbn [a_alloc a_need] in Ef. rewrite E in Ef. cbn in Ef. lia. }
   pose proof (cpc_pos _ Hne) as Hk.
   destruct (if (bind =? 1) || (cpc (c_topo c) =? 1) then phaseA c a0 else (a0, false)) as [a1 r] eqn:EA.
-  assert (HA : acc_inv n avail a1 /\ (if r then a_need a1 < 1 else 1 <= a_need a1)
+  assert (HA : acc_inv n A0 a1 /\ (if r then a_need a1 < 1 else 1 <= a_need a1)
                /\ (((bind =? 1) = true -> (cpc (c_topo c) | n)) -> r = true -> a_need a1 = 0)).
   { destruct ((bind =? 1) || (cpc (c_topo c) =? 1)) eqn:Eb.
-    - destruct (phaseA_spec c n avail _ _ _ EA Hinv Hn) as [I1 [I2 I3]]. splits; auto.
+    - destruct (phaseA_spec c n A0 _ _ _ EA Hinv Hn) as [I1 [I2 I3]]. splits; auto.
       intros Hal Hr. apply I3; [lia| |exact Hr]. rewrite Hn0.
       destruct (bind =? 1) eqn:Eb1; [apply Hal; reflexivity|].
       cbn [orb] in Eb. apply Z.eqb_eq in Eb. rewrite Eb. apply Z.divide_1_l.
-    - inversion EA; subst. splits; auto. intros _ Hr. discriminate. }
+    - injection EA as Ea Er. subst a1 r. splits; auto. intros _ Hr. discriminate. }
   destruct HA as [I1 [I2 I3]].
   destruct r.
   { inversion H; subst a. pose proof I1 as [R1 [_ [_ [R4 [_ [R6 _]]]]]].
-    splits; auto. intros Hal. right. apply I3; auto. }
+    splits; auto. intros Hal. pose proof (I3 Hal eq_refl). lia. }
   assert (HB : forall a2, (if bind =? 1 then None else phaseB c a1) = Some a2 ->
-                          acc_inv n avail a2 /\ a_need a2 = 0).
+                          acc_inv n A0 a2 /\ a_need a2 = 0).
   { intros a2 HB. destruct (bind =? 1); [discriminate|]. eapply phaseB_spec; eauto. }
   apply or_else_Some in H. destruct H as [H|H].
   - destruct (HB a H) as [[R1 [_ [_ [R4 [_ [R6 _]]]]]] R0]. splits; auto; lia.
-  - destruct (phaseC_spec c n avail a1 I1 I2) as [a' [E [[R1 [_ [_ [R4 [_ [R6 _]]]]]] R0]]].
+  - destruct (phaseC_spec c n A0 a1 I1 I2) as [a' [E [[R1 [_ [_ [R4 [_ [R6 _]]]]]] R0]]].
     rewrite E in H. inversion H; subst a'. splits; auto; lia.
 Qed.
 
@@ -367,20 +369,23 @@ Proof.
   intros HT Hle. unfold take_cpus_acc.
   destruct (new_acc_inv c avail allocated n HT) as [N1 [N2 [N3 [N4 [N5 [N6 N7]]]]]].
   set (a0 := new_acc c avail allocated n) in *.
+  set (A0 := map cid (filter (fun x => memZ (cid x) avail) (c_topo c))) in *.
+  assert (N4' : incl (a_res a0) A0) by (intros x []).
+  assert (N5' : incl (ids (a_alloc a0)) A0) by (rewrite N7; apply incl_refl).
   destruct (satisfied a0) eqn:Es; [discriminate|].
   pose proof (not_satisfied _ Es) as Hn.
   assert (Hlen : lenZ (a_alloc a0) = lenZ (filter (fun x => memZ (cid x) avail) (c_topo c))).
-  { rewrite <- (lenZ_map eid (a_alloc a0)). fold (ids (a_alloc a0)). rewrite N7, lenZ_map. reflexivity. }
+  { rewrite <- (lenZ_map eid (a_alloc a0)). fold (ids (a_alloc a0)). rewrite N7. unfold A0. rewrite lenZ_map. reflexivity. }
   assert (Hn0 : a_need a0 = n) by reflexivity.
   destruct (lenZ (a_alloc a0) <? a_need a0) eqn:Ef; [apply Z.ltb_lt in Ef; lia|]. apply Z.ltb_ge in Ef.
-  assert (Hinv : acc_inv n avail a0) by (unfold acc_inv; splits; auto).
+  assert (Hinv : acc_inv n A0 a0) by (unfold acc_inv; splits; auto).
   destruct (if (bind =? 1) || (cpc (c_topo c) =? 1) then phaseA c a0 else (a0, false)) as [a1 r] eqn:EA.
   destruct r; [discriminate|].
-  assert (HA : acc_inv n avail a1 /\ 1 <= a_need a1).
+  assert (HA : acc_inv n A0 a1 /\ 1 <= a_need a1).
   { destruct ((bind =? 1) || (cpc (c_topo c) =? 1)).
-    - destruct (phaseA_spec c n avail _ _ _ EA Hinv Hn) as [I1 [I2 _]]. auto.
-    - inversion EA; subst. auto. }
+    - destruct (phaseA_spec c n A0 _ _ _ EA Hinv Hn) as [I1 [I2 _]]. auto.
+    - injection EA as Ea. subst a1. auto. }
   destruct HA as [I1 I2].
-  destruct (phaseC_spec c n avail a1 I1 I2) as [a' [E _]]. rewrite E.
+  destruct (phaseC_spec c n A0 a1 I1 I2) as [a' [E _]]. rewrite E.
   destruct (if bind =? 1 then None else phaseB c a1); cbn [or_else]; discriminate.
 Qed.
